@@ -10,12 +10,12 @@ package criteria_concealment
 //@   ensures [scaling_nonzero] result.NewCriterionScaling != 0.0
 
 //@ func getCriterionValueRange
-//@   property C18
+//@   property C18 C07
 //@   ensures [scaled_reference_range] fresh(result) && (referenceCriterion.ValuesRange != nil ==>
 //@             result.Min == utils.scaledMin(*referenceCriterion.ValuesRange, scaling) && result.Max == utils.scaledMax(*referenceCriterion.ValuesRange, scaling))
 
 //@ func (*CriteriaConcealment).generateNewCriterionBase
-//@   property C18
+//@   property C18 C07
 //@   requires model.distinctCriteria(originalParams.Criteria) && len(originalParams.Criteria) > 0
 //@   requires model.validParams(*listener, originalParams.MethodParameters) && model.coversAll(*listener, originalParams.MethodParameters, originalParams.Criteria)
 //@   ensures [gain] result.newCriterion != nil && result.newCriterion.Type == model.Gain && result.newCriterion.ValuesRange != nil
@@ -25,7 +25,7 @@ package criteria_concealment
 
 // the value generator closure: bounded next value of the in-range generator, recorded in the report under the alternative's id
 //@ func assignNewCriterionToAlternatives$1
-//@   property C18
+//@   property C18 C07
 //@   assigns alternativesValues
 //@   ensures [bounded_draw] result == criteria_bounding.boundedIn(*boundingInRange, draw(generator, old(calls(generator))))
 //@   ensures [reported] a.Id in alternativesValues && alternativesValues[a.Id] == result
